@@ -227,7 +227,7 @@ let sem_c02_spec ~(strict_symbols : bool) (e : Sexp.t) : Sexp.t =
                   List.filter_map (fun (name, args) ->
                       if name = q'.psym && List.length args = Conv.int_of_nat q.parity then Some (q.psym, args) else None) mi) voc_r in
             let nonprivate = List.filter (fun q -> not (List.mem q pr.pp)) voc_r in
-            let count = ref 0 and result = ref None in
+            let count = ref 0 and result = ref None and hit_f = ref 0 and hit_b = ref 0 in
             let fw = dir_fw t.et_direction and bw = dir_bw t.et_direction in
             let refuted holds side =
               List.exists (fun p -> Ops_tasks_sem.starts_with side (Ops_tasks_sem.name_of p) && Ops_tasks_sem.refutes holds p) pbs in
@@ -260,15 +260,19 @@ let sem_c02_spec ~(strict_symbols : bool) (e : Sexp.t) : Sexp.t =
                                             L [ A "program-private-supported"; of_boolv supported ];
                                             L [ A "M-on-the-program"; Semlib.of_fpint mr ] ]) in
                       let exp_b = bw && uga && au && stable && violated <> None in
+                      if exp_b then incr hit_b;
                       let act_b = refuted holds "backward" in
                       if act_b <> exp_b then report "backward" act_b exp_b
                       else begin
                         let exp_f = fw && uga && au && af && spf && supported && not stable in
+                        if exp_f then incr hit_f;
                         let act_f = refuted holds "forward" in
                         if act_f <> exp_f then report "forward" act_f exp_f
                       end
                     end) (Semlib.subsets atoms)) fis;
-            match !result with Some r -> r | None -> ok !count
+            match !result with
+            | Some r -> r
+            | None -> L [ A "ok"; A (string_of_int !count); L [ A "witnessed-forward"; A (string_of_int !hit_f) ]; L [ A "witnessed-backward"; A (string_of_int !hit_b) ] ]
           end end)
   | _ -> bad "sem_c02_spec: %s" (to_string e)
 
